@@ -473,12 +473,55 @@ func (e *c01env) stream(r *vh.RNG, n int) {
 			map[string]interface{}{"cfg": e.cfg.String(), "frames": n})
 		return
 	}
+	// the same frames once more, as a datagram transport hands them over: several whole frames per datagram, up to 512 bytes
+	// together, each Read returning one datagram (what does not fit the caller's slice is gone)
+	{
+		var dgrams [][]byte
+		var cur []byte
+		for _, sp := range specs {
+			b := ref.Serialize(sp)
+			if len(cur)+len(b) > 512 || (len(cur) > 0 && r.Chance(1, 4)) {
+				dgrams = append(dgrams, cur)
+				cur = nil
+			}
+			cur = append(cur, b...)
+		}
+		dgrams = append(dgrams, cur)
+		e.rep.Count("stream_datagrams_with_whole_frames", len(dgrams))
+		rdD := &frame.Reader{ByteReader: &datagramReader{dgrams: dgrams}, DialectRW: e.drw}
+		_ = rdD.Initialize()
+		for i, sp := range specs {
+			fr, err := rdD.Read()
+			if err != nil {
+				e.rep.Violation(c01key(e.cfg, "stream", "roundtrip"), fmt.Sprintf("frames packed into datagrams of up to 512 bytes: frame %d was not read back: %v", i, err),
+					map[string]interface{}{"cfg": e.cfg.String(), "index": i})
+				break
+			}
+			if ok, diff := specEqual(sp, fromFrame(fr)); !ok {
+				e.rep.Violation(c01key(e.cfg, diff, "roundtrip"), "a frame read from a datagram that carried several frames differs in "+diff,
+					map[string]interface{}{"cfg": e.cfg.String(), "index": i, "frame": specJSON(sp), "back": specJSON(fromFrame(fr))})
+				break
+			}
+		}
+	}
 	guard(e.rep, c01key(e.cfg, "stream", "panic"), func() interface{} { return vh.Hex(img) }, func() {
 		rd := &frame.Reader{ByteReader: &chunkReader{data: readImg, r: r.Fork(), max: 700}, DialectRW: e.drw}
+		var shared *bufio.Reader
+		if r.Chance(1, 3) {
+			// the caller's own small buffered reader, handed to a NEW frame reader every few frames (another consumer takes over
+			// between two frames): what one reader has not returned as a frame is still there for the next
+			shared = bufio.NewReaderSize(&chunkReader{data: readImg, r: r.Fork(), max: 700}, []int{16, 64, 300}[r.Intn(3)])
+			rd = &frame.Reader{BufByteReader: shared, DialectRW: e.drw}
+			e.rep.Count("streams_read_by_successive_readers_on_one_buffered_reader", 1)
+		}
 		_ = rd.Initialize()
 		var got []frame.Frame
 		refusals := 0
 		for len(got) < len(specs) {
+			if shared != nil && (len(got)+refusals)%5 == 4 {
+				rd = &frame.Reader{BufByteReader: shared, DialectRW: e.drw}
+				_ = rd.Initialize()
+			}
 			fr, err := rd.Read()
 			if err != nil {
 				refusals++
@@ -500,6 +543,21 @@ func (e *c01env) stream(r *vh.RNG, n int) {
 			}
 		}
 	})
+}
+
+// datagramReader returns one datagram per Read; what does not fit the slice it is given is dropped (UDP semantics).
+type datagramReader struct {
+	dgrams [][]byte
+	i      int
+}
+
+func (d *datagramReader) Read(p []byte) (int, error) {
+	if d.i >= len(d.dgrams) {
+		return 0, io.EOF
+	}
+	n := copy(p, d.dgrams[d.i])
+	d.i++
+	return n, nil
 }
 
 // chunkReader serves data in random chunk sizes.
